@@ -46,7 +46,7 @@ STATE_MEASURE = ("event digest = SHA-1 over every queue op/thread switch; "
 
 def budget(tier: str) -> dict:
     if tier == "quick":
-        return {"wall_s": 25.0, "max_cases": 10**9, "case_timeout": 20.0}
+        return {"wall_s": 25.0, "max_cases": 10**9, "case_timeout": 40.0}
     return {"wall_s": 420.0, "max_cases": 10**9, "case_timeout": 30.0}
 
 
